@@ -397,6 +397,32 @@ def gen_cases(rng, tier):
         # off-curve / out-of-range inputs: errors must coincide
         out.append(case(cname + "-add-range", "add", cname, (cv["p"], 1), cv["G"]))
         out.append(case(cname + "-on-all", "on", cname, 1, 1))
+    # --- coordinates congruent to a curve point's modulo p but outside [0, p): never "on the curve"
+    for cname in ("secp", "c43", "c79", "c67"):
+        cv = CURVES[cname]
+        p_ = cv["p"]
+        pts_ = [cv["G"]] + ([ref_mul(cv, k, cv["G"]) for k in (2, 3, 5)] if cname == "secp" else all_points(cv)[1:(12 if not T else 200)])
+        for A in pts_:
+            if A is None:
+                continue
+            for (x, y) in ((A[0] + p_, A[1]), (A[0], A[1] + p_), (A[0] + p_, A[1] + p_), (A[0] - p_, A[1]), (A[0], A[1] - p_),
+                           (A[0], -A[1]), (A[0], p_ - A[1])):
+                out.append(case(cname + "-on-congruent", "on", cname, x, y))
+    for cname in ("c43",) if not T else ("c43", "c79", "c67"):
+        p_ = CURVES[cname]["p"]
+        for x in range(-1, p_ + 2):
+            for y in (range(-1, p_ + 2) if (T or x % 5 == 0) else ()):
+                out.append(case(cname + "-on-grid", "on", cname, x, y))
+    # --- the three small curves interleaved call by call (the library is re-targeted between calls: nothing computed
+    #     for one modulus may be reused for another)
+    aps = {cn: all_points(CURVES[cn]) for cn in ("c43", "c79", "c67")}
+    for i in range(240 if not T else 2400):
+        cn = ("c43", "c79", "c67")[i % 3]
+        A, B = rng.choice(aps[cn]), rng.choice(aps[cn])
+        if i % 2:
+            out.append(case("mixed-curves-add", "add", cn, A, B))
+        else:
+            out.append(case("mixed-curves-mul", "mul", cn, rng.randrange(0, 2 * CURVES[cn]["n"]), A))
     # --- private keys
     cands = [0, 1, 2, N - 1, N, N + 1, 2 ** 256 - 1, 2 ** 255, 2 ** 8, 2 ** 248 - 1]
     for v in cands:
